@@ -1484,3 +1484,74 @@ func oneReceiverPerConnection(c *core.Ctx, rule string) {
 	}
 	c.Check(n >= 1, rule, "state run() methods that start the message receiver", 0, "none found")
 }
+
+// loopConditionIsConstantTime: the BMP decoders run loops whose trip count the sender chooses (one iteration per TLV of a
+// message of up to 2^32 octets).  A loop condition that calls a function which itself loops (re-summing everything
+// decoded so far) makes decoding quadratic: one large message of empty TLVs holds the session goroutine for minutes to
+// hours.  Rule: no `for` condition in the BMP packet decoders and the router's message processing calls a repository
+// function that contains a loop (followed through calls, visited set).
+func loopConditionIsConstantTime(c *core.Ctx, rule string) {
+	loops := map[*core.Fn]int{} // 0 unknown, 1 no, 2 yes
+	var hasLoop func(g *core.Fn, depth int) bool
+	hasLoop = func(g *core.Fn, depth int) bool {
+		if g == nil || g.Decl.Body == nil {
+			return false
+		}
+		if v := loops[g]; v != 0 {
+			return v == 2
+		}
+		loops[g] = 1
+		res := false
+		ast.Inspect(g.Decl.Body, func(nd ast.Node) bool {
+			switch x := nd.(type) {
+			case *ast.ForStmt, *ast.RangeStmt:
+				res = true
+			case *ast.CallExpr:
+				if depth < 4 && hasLoop(c.P.FnOf(core.Callee(g.Pkg, x)), depth+1) {
+					res = true
+				}
+			}
+			return !res
+		})
+		if res {
+			loops[g] = 2
+		}
+		return res
+	}
+	n := 0
+	perFn := map[*core.Fn]int{}
+	var fns []*core.Fn
+	fns = append(fns, c.P.FuncsIn("protocols/bmp/packet")...)
+	for _, f := range c.P.FuncsIn(srv) {
+		if strings.Contains(c.P.Pos(f.Decl.Pos()), "bmp_") {
+			fns = append(fns, f)
+		}
+	}
+	for _, f := range fns {
+		if f.Decl.Body == nil || isTestFn(c.P, f) {
+			continue
+		}
+		ast.Inspect(f.Decl.Body, func(nd ast.Node) bool {
+			fs, ok := nd.(*ast.ForStmt)
+			if !ok || fs.Cond == nil {
+				return true
+			}
+			n++
+			perFn[f]++
+			bad := ""
+			ast.Inspect(fs.Cond, func(m ast.Node) bool {
+				if cl, isCall := m.(*ast.CallExpr); isCall {
+					if g := c.P.FnOf(core.Callee(f.Pkg, cl)); g != nil && hasLoop(g, 0) {
+						bad = g.Name()
+					}
+				}
+				return true
+			})
+			c.Analysed(f)
+			c.Check(bad == "", rule, fmt.Sprintf("%s loop condition #%d is evaluated in constant time", f.Name(), perFn[f]), fs.Pos(),
+				"the loop condition calls "+bad+", which itself loops: with one iteration per TLV of a sender-chosen message the decoder is quadratic in the message size (a single large message wedges the session)")
+			return true
+		})
+	}
+	c.Check(n >= 3, rule, "conditional loops in the BMP decoders", 0, fmt.Sprintf("only %d found", n))
+}
